@@ -29,6 +29,12 @@ pub trait Lab<C: Ciphersuite> {
     fn adv_scalar(&mut self, name: &str) -> Scalar<C>;
     /// an adversarially chosen group element of unknown discrete logarithm (non-identity)
     fn adv_element(&mut self, name: &str) -> Element<C>;
+    /// compare the suite's hash number `which` (H1..H5 of RFC 9591) on `input` — whose encoded
+    /// output is `got` — with an independent transcription of the RFC (concrete runs on the real
+    /// RFC suites only; symbolically hashes are uninterpreted and nothing is compared)
+    fn ref_hash(&mut self, _which: u8, _input: &[u8], _got: &[u8], _what: &str) -> bool {
+        true
+    }
     /// an adversarial scalar like `adv_scalar`, with named candidate values it may coincide with:
     /// purely a replay aid (a counterexample in which the value equals candidate k is replayed
     /// with the concrete candidate k) — symbolically the value is just as free
